@@ -313,6 +313,11 @@ class NP(object):
     def float(x):
         return x
 
+    @staticmethod
+    def allclose(a, b, *x, **k):
+        ok, why = same(a, b)
+        return ok
+
     class linalg(object):
         @staticmethod
         def inv(a):
@@ -321,6 +326,21 @@ class NP(object):
         @staticmethod
         def det(a):
             return det(arr(a))
+
+        @staticmethod
+        def matrix_power(a, n):
+            a = arr(a)
+            n = concrete(n)
+            if n is None or int(n) != n:
+                raise Unsupported("matrix_power with non-integer exponent")
+            n = int(n)
+            if n < 0:
+                a = inv(a)
+                n = -n
+            out = NP.eye(a.shape[0])
+            for _ in range(n):
+                out = np.dot(out, a)
+            return out
 
         @staticmethod
         def svd(a, *x, **k):
@@ -388,10 +408,12 @@ def inv(a):
         raise Unsupported("inverse of %s array" % (a.shape,))
     if INV_MODE[0] == "atoms" and n == 3:
         key = tuple(vn.canon(a[i, j]) for i in range(3) for j in range(3))
+        symmetric = all(key[3 * i + j] == key[3 * j + i] for i in range(3) for j in range(3))
         out = np.empty((3, 3), dtype=object)
         for i in range(3):
             for j in range(3):
-                out[i, j] = vn.atom(("inv3x3", i, j, key))
+                ii, jj = (min(i, j), max(i, j)) if symmetric else (i, j)   # the inverse of a symmetric matrix is symmetric
+                out[i, j] = vn.atom(("inv3x3", ii, jj, key))
         return out
     d = det(a)
     if vn.is_zero(d):
@@ -974,6 +996,24 @@ class Interp(object):
             return ("ignored", d)
         if head in ("logging", "warnings", "sys", "os", "time"):
             return ("ignored", d)
+        if head == "ImageD11" and len(parts) >= 2:
+            # ImageD11.unitcell.unitcell / ImageD11.sinograms.geometry.f : resolve through the modules handed to the interpreter
+            idx = 1
+            while idx < len(parts) and parts[idx] not in self.modules:
+                idx += 1
+            if idx < len(parts):
+                mm = self.modules[parts[idx]]
+                rest = parts[idx + 1:]
+                if not rest:
+                    return ("module", mm)
+                q = ".".join(rest)
+                if q in mm.funcs:
+                    return ("func", mm, mm.funcs[q])
+                if q in mm.classes:
+                    return ("class", mm, mm.classes[q])
+                if len(rest) == 1:
+                    return self.module_global(mm, rest[0])
+            raise Unsupported("cannot resolve %s" % d)
         return _MISSING
 
     def global_name(self, m, name):
@@ -992,7 +1032,8 @@ class Interp(object):
              "list": list, "tuple": tuple, "min": _min, "max": _max, "sum": _sum, "print": _ignore, "isinstance": _isinstance,
              "True": True, "False": False, "None": None, "dict": dict, "str": str, "sorted": sorted, "bool": bool,
              "round": lambda x, *a: vn.app("rnd", R(x)), "pow": lambda a, b: _pow(a, b), "reversed": reversed,
-             "ValueError": ValueError, "Exception": Exception, "prange": range, "set": set, "any": any, "all": all}
+             "ValueError": ValueError, "Exception": Exception, "prange": range, "set": set, "any": any, "all": all,
+             "hasattr": _hasattr}
         if name in b:
             return b[name]
         return self.module_global(m, name)
@@ -1234,6 +1275,18 @@ def _sum(xs, start=0):
 
 
 def _isinstance(x, t):
+    return False
+
+
+def _hasattr(obj, name):
+    if isinstance(obj, SymObject):
+        if name in obj._attrs:
+            return True
+        if obj._cls is not None:
+            return any(isinstance(n, ast.FunctionDef) and n.name == name for n in obj._cls[1].body)
+        return False
+    if isinstance(obj, np.ndarray):
+        return name in ("shape", "T", "dtype", "size", "ndim", "copy", "sum")
     return False
 
 
